@@ -343,6 +343,10 @@ def plan_c15(case):
         if tuple(b) in seen:
             continue
         seen.add(tuple(b))
+        # the BER decoder, which accepts the rewritten form, runs first in the same process: the strict decoders must
+        # not pick up anything it left behind (codec singletons, caches)
+        R.guarded(lambda: R.DEC['ber'].decode(bytes(b)), seconds=10)
+        R.guarded(lambda: R.DEC['ber'].decode(bytes(b), asn1Spec=spec), seconds=10)
         for rules in ('der', 'cer'):
             if rules == 'cer' and not name.startswith('true'):
                 continue
